@@ -62,7 +62,8 @@ PLAN = {
     "C13": {"level": "fault_enumeration", "units": [
         unit("side", "TestC13", 250, 3000, replay="TestReplayC13"),
         unit("sys", "TestC13Sys", 3, 20, replay="TestReplayC13Sys", seed_off=950, shrinktime="30s", workers={"quick": 8, "thorough": 16}),
-        unit("loop", "TestC13Stop", 150, 3000, seed_off=600, shrinktime="30s")]},
+        unit("loop", "TestC13Stop", 150, 3000, seed_off=600, shrinktime="30s"),
+        unit("side", "TestC13Listener", 60, 600, seed_off=650)]},
     "C14": {"level": "exploration", "units": [
         unit("side", "TestC14", 1000, 15000, replay="TestReplayC14"),
         unit("side", "TestC14SlowHead", 1, 2, seed_off=975, workers={"quick": 3, "thorough": 8}, waits=True),
